@@ -48,12 +48,8 @@ KERNEL_MAXLEN = 2500
 TRUSTED_BASE = ["lib/scheme_ref.py: reference interpreter written from R7RS (an oracle used to classify outputs, not a proof)"]
 MODEL_VOCAB_WIDE = False      # flip when the merged model has all builtins: wide sessions then go three-way
 
-MANIFEST_PENDING = dict(
-    text="Coq theorems (coq/Props/C01.v, written by the integrator) about the hand-written model of marwood's real "
-         "pipeline (macro expansion driver over the generated prelude, compiler, VM) against a reference semantics; "
-         "this module ties the model to /repo by a three-way differential on generated sessions (implementation / "
-         "extracted model / vm_compute sub-sample) and checks the implementation's own output against an independent "
-         "reference interpreter written from R7RS (lib/scheme_ref.py).",
+MANIFEST = dict(
+    text="Coq theorems (coq/Props/C01.v) about the hand-written model of the real pipeline (macro expansion over the GENERATED prelude, compiler, VM): bytecode shape of applications (operand order, CALL protocol) and of `if` (tail flag inherited), refutation witnesses for the recorded defect classes computed in-kernel; the semantic compile-correctness theorem is OPEN (stated in the file) — the mechanisms it would compose are proved under C02 (scoping), C04 (frames), C05 (continuations), C07/C13 (run loop). Tie: three-way differential on generated sessions (implementation / extracted model / vm_compute sub-sample); the implementation's own output is classified against an independent reference interpreter written from R7RS (lib/scheme_ref.py), which is an oracle, not a proof.",
     design="DESIGN.md section 5 C01",
     note="The theorems are in coq/Props/C01.v (integrator); until they land that file holds a placeholder statement. "
          "The reference interpreter is an ORACLE for classifying the implementation's output, not a proof, and it is "
